@@ -694,6 +694,28 @@ Proof.
   apply (allowed_reply parse sch cfg Hsch st now r0 a o Ha Hs Hst Ho); [rewrite Hv; discriminate|exact Hpf].
 Qed.
 
+(** the same along every history: whatever requests (same-origin, allowed, refused, unsanitary, at any
+    times) and cache clears came before, from the empty cache *)
+Lemma decision_histories_proof :
+  forall (parse : bytes -> option uparts) (conn_scheme : bytes) (cfg : ccfg) (ops : list (cop * N)) (t0 now : N) (r0 : request) (a o : bytes),
+    mem_byte c_colon conn_scheme = false -> handlers_external cfg ->
+    header H_HOST r0 = Some a -> header H_ORIGIN r0 = Some o -> sanitize_ok_fix r0 = true -> stable cfg r0 ->
+    let st := run_conn_state parse is_part_of_origin conn_scheme cfg ([], tt) t0 ops in
+    (req_verdict parse conn_scheme cfg r0 = VRefuse ->
+       respond parse is_part_of_origin conn_scheme cfg st now r0
+       = (st, mkWire 403 [] (if rq_method r0 =? M_HEAD then [] else DENIED) []))
+    /\ (req_verdict parse conn_scheme cfg r0 <> VRefuse -> pf_shape r0 = false ->
+       respond parse is_part_of_origin conn_scheme cfg st now r0
+       = (fst (respond parse is_part_of_origin conn_scheme cfg st now (strip_origin r0)),
+          let w := snd (respond parse is_part_of_origin conn_scheme cfg st now (strip_origin r0)) in
+          mkWire (w_status w) (if cc_with_cors cfg then set_header H_ACAO o (w_headers w) else w_headers w) (w_body w) (w_log w))).
+Proof.
+  intros parse sch cfg ops t0 now r0 a o Hsch Hext Ha Ho Hs Hst st.
+  assert (no_internal (fst st)) as Hc by (apply reachable_no_internal; intros k e []).
+  destruct st as [c []]. cbn [fst] in Hc.
+  apply (decision_proof parse sch cfg c now r0 a o Hsch Hext Hc Ha Ho Hs Hst).
+Qed.
+
 (** ---- witnesses ---- *)
 Definition ex_al (origins : list aorigin) (all : bool) : allow_list :=
   mkAL origins all (Some [M_GET; M_HEAD; M_OPTIONS]) [B "content-type"] 1500.
